@@ -155,10 +155,13 @@ def resolve_local_links(
         else:
             fspath = source.parent / Path(*path.split("/"))
         try:
+            fspath = fspath.resolve()
             # NB: resolve() gives up part way (returning a partly unresolved
-            # path) when it meets a symlink loop; resolving once more makes
-            # sure the containment check below sees a fully resolved path.
-            fspath = fspath.resolve().resolve()
+            # path) when it meets a symlink loop. A fully resolved path never
+            # contains a symlink so refuse anything else: the containment
+            # check below is only meaningful for fully resolved paths.
+            if any(p.is_symlink() for p in (fspath, *fspath.parents)):
+                raise RuntimeError(f"Symlink loop from {str(fspath)!r}")
         except ValueError:
             # E.g. an (encoded) null character: cannot name any file
             raise LinkToNonExistentFileError(
@@ -309,10 +312,13 @@ def embed_local_links_as_data_urls(
         else:
             fspath = source.parent / Path(*path.split("/"))
         try:
+            fspath = fspath.resolve()
             # NB: resolve() gives up part way (returning a partly unresolved
-            # path) when it meets a symlink loop; resolving once more makes
-            # sure the containment check below sees a fully resolved path.
-            fspath = fspath.resolve().resolve()
+            # path) when it meets a symlink loop. A fully resolved path never
+            # contains a symlink so refuse anything else: the containment
+            # check below is only meaningful for fully resolved paths.
+            if any(p.is_symlink() for p in (fspath, *fspath.parents)):
+                raise RuntimeError(f"Symlink loop from {str(fspath)!r}")
         except ValueError:
             # E.g. an (encoded) null character: cannot name any file
             raise LinkToNonExistentFileError(
